@@ -15,8 +15,12 @@
    same order), no ValueError (proofs/EncOrders.v: every bond of order 1.5 joins two atoms of the delocalisation subgraph
    and is listed there in both directions, so dearomatize rewrites every one of them; orders after kekulize are 1, 2 or 3).
    Middle stage (proofs/EncKek.v, EncMatch.v): kekulize on a parsed graph can raise only inside find_perfect_matching.
-   Not proved: crash freedom of the matching loops themselves; outcome
-   classes of implementation and model are compared on malformed input on every run. *)
+   The matching routine and the CPython set model (proofs/EncMatchSafe.v, EncGreedy.v, EncGreedyT.v, EncMatchT.v,
+   EncProbe.v): neither phase raises, every loop - the set's probe loops included - terminates.
+   Assembled (proofs/EncTotal.v): C09_encoder_total, THE PROPERTY AS STATED for the model, up to the known finding
+   (int() on a digit field of more than 4300 digits).  The theorems named ..._partial below are the steps of the
+   argument, kept in the order in which they were proved.  Outcome classes of implementation and model are compared on
+   malformed input on every run, and so is the CPython set model against the interpreter's set. *)
 From Coq Require Import String List ZArith NArith Bool.
 Import ListNotations.
 From Selfies Require Import Base Generated Atoms Grammar Decoder PySet Matching Smiles Kekulize Encoder
